@@ -2,6 +2,7 @@
    witnesses that motivated the fixes stay machine-checked (`_refuted` theorems).
    Nothing else depends on this file. *)
 From CCTZ Require Import Base Cal SrcConstants CivilImpl FixedImpl PosixImpl ZoneLoad.
+From CCTZ Require Import ZoneImpl ZoneRefineDefs FormatImpl ParseImpl.
 Local Open Scope Z_scope.
 
 (* ---- F1 (C04): n_mon before the fix did `y += m / 12` and then `y -= 1`. *)
@@ -157,3 +158,127 @@ Qed.
 Example default_type_search_fixed :
   dflt_up 301 (repeat dst_type 300) 300 0 = OK 300.
 Proof. vm_compute. reflexivity. Qed.
+
+(* ---- F11 (C11): EquivTransitions before the fix compared the abbr_index of
+   the two transition types, not the abbreviation they designate.  A TZif
+   file may store one abbreviation twice (or let two indices fall on the same
+   NUL-terminated tail): the two types then show the same offset, the same
+   is_dst and the same abbreviation text, yet were "different", and
+   next_transition / prev_transition reported a change that alters nothing. *)
+Definition equiv_transitions_prefix (types : list ttype) (i1 i2 : Z) : res bool :=
+  if i1 =? i2 then OK true
+  else
+    do t1 <- nth_res types i1 ;;
+    do t2 <- nth_res types i2 ;;
+    OK ((tt_off t1 =? tt_off t2) && Bool.eqb (tt_isdst t1) (tt_isdst t2) && (tt_abbr t1 =? tt_abbr t2)).
+
+(* NextTransition with the pre-fix comparison (otherwise ZoneImpl.next_scan /
+   next_transition verbatim) *)
+Fixpoint next_scan_prefix (fuel : nat) (z : zone) (l : list transition) (k : nat) : res (option transition) :=
+  match fuel with
+  | O => Err Fuel
+  | S f =>
+      match nth_error l k with
+      | None => OK None
+      | Some tr =>
+          do prev_ti <- (match k with
+                         | O => OK (z_default z)
+                         | S k' => match nth_error l k' with Some p => OK (tr_type p) | None => Err OOB end
+                         end) ;;
+          do e <- equiv_transitions_prefix (z_types z) prev_ti (tr_type tr) ;;
+          if e then next_scan_prefix f z l (S k) else OK (Some tr)
+      end
+  end.
+
+Definition next_transition_prefix (z : zone) (t : Z) : res (option (fields * fields)) :=
+  match z_trans z with
+  | [] => OK None
+  | _ =>
+      let '(l, _) := drop_big_bang z in
+      do k <- bound_search (fun tr => t <? tr_time tr) l ;;
+      do r <- next_scan_prefix (S (length l)) z l k ;;
+      match r with
+      | None => OK None
+      | Some tr => do from <- plus64 0 (tr_pcs tr) 1 ;; OK (Some (from, tr_cs tr))
+      end
+  end.
+
+(* a 70-byte version-1 file: transitions at 100000000 and 110000000, both to
+   type 1; type 0 = (offset 0, dst, abbr_index 3), type 1 = (offset 0, dst,
+   abbr_index 1); abbreviation table "B\0\0\0", so both indices give "". *)
+Definition dup_abbr_file : list Z :=
+  [
+   84; 90; 105; 102; 0; 0; 0; 0; 0; 0; 0; 0; 0; 0; 0; 0; 0; 0; 0; 0; 0; 0;
+   0; 0; 0; 0; 0; 0; 0; 0; 0; 0; 0; 0; 0; 2; 0; 0; 0; 2; 0; 0; 0; 4;
+   5; 245; 225; 0; 6; 142; 119; 128; 1; 1; 0; 0; 0; 0; 1; 3; 0; 0; 0; 0; 1; 1;
+   66; 0; 0; 0].
+
+(* The loader accepts the file and the zone satisfies the certificate; its
+   default type is 0.  Types 0 and 1 show the same offset and the same
+   (is_dst, abbreviation) -- nothing observable distinguishes them -- but the
+   pre-fix comparison calls them different, and the pre-fix next_transition(0)
+   reports a "transition" whose from and to civil times coincide.  The fixed
+   comparison calls them equivalent and reports nothing. *)
+Theorem equiv_abbr_index_refuted :
+  exists z, load_bytes dup_abbr_file = OK (Some z) /\
+    zone_ok z = true /\ z_default z = 0 /\
+    equiv_transitions_prefix (z_types z) (z_default z) 1 = OK false /\
+    off_of z (z_default z) = off_of z 1 /\
+    info_of z (z_default z) = OK (true, []) /\ info_of z 1 = OK (true, []) /\
+    equiv_transitions (z_abbrs z) (z_types z) (z_default z) 1 = OK true /\
+    (exists c, next_transition_prefix z 0 = OK (Some (c, c))) /\
+    next_transition z 0 = OK None.
+Proof.
+  eexists. split; [vm_compute; reflexivity|].
+  vm_compute. repeat split; try reflexivity. eexists; reflexivity.
+Qed.
+
+(* ---- F13 - lone offset digit (C07/C09): ParseOffset before the fix kept the value of a minutes (or seconds) group
+   that it did NOT consume: ParseInt(ap, 2, 0, 59, &minutes) stores a lone digit in `minutes`, the
+   test `bp - ap == 2` fails, dp is not advanced, yet `minutes` still entered *offset. *)
+Definition fmt_parse_offset_prefix (dp : list Z) (mode_sep : Z) : option (Z * list Z) :=
+  match dp with
+  | [] => None
+  | first :: d1 =>
+      if (first =? 43) || (first =? 45) then
+        match parse_int32 d1 2 (rng src_parse_off_hh 0) (rng src_parse_off_hh 1) with
+        | Some (hours, ap) =>
+            if consumed2 d1 ap then
+              let ap' := match ap with c :: r => if negb (mode_sep =? 0) && (c =? mode_sep) then r else ap | [] => ap end in
+              let '(minutes, seconds, dpf) :=
+                match parse_int32 ap' 2 (rng src_parse_off_mm 0) (rng src_parse_off_mm 1) with
+                | Some (mi, bp) =>
+                    if consumed2 ap' bp then
+                      let bp' := match bp with c :: r => if negb (mode_sep =? 0) && (c =? mode_sep) then r else bp | [] => bp end in
+                      match parse_int32 bp' 2 0 59 with
+                      | Some (se, cp) => if consumed2 bp' cp then (mi, se, cp) else (mi, se, bp)   (* se kept *)
+                      | None => (mi, 0, bp)
+                      end
+                    else (mi, 0, ap)                                                             (* mi kept *)
+                | None => (0, 0, ap)
+                end in
+              let off := ((hours * 60 + minutes) * 60) + seconds in
+              Some (if first =? 45 then - off else off, dpf)
+            else None
+        | None => None
+        end
+      else if (first =? 90) || (first =? 122) then Some (0, d1)
+      else None
+  end.
+
+(* "-12:3" with separator ':' : only "-12" is consumed (the rest is ":3") but the pre-fix offset is
+   -(12*60+3)*60 = -43380; the fixed function returns -12*3600 = -43200 with the same rest. *)
+Lemma parseoffset_lone_digit_refuted :
+  exists dp sep v rest,
+    fmt_parse_offset_prefix dp sep = Some (v, rest) /\
+    dp = [45; 49; 50; 58; 51] /\ sep = 58 /\ rest = [58; 51] /\ v = -43380 /\
+    fmt_parse_offset dp sep = Some (-43200, rest).
+Proof.
+  exists [45; 49; 50; 58; 51], 58, (-43380), [58; 51]. vm_compute. repeat split; reflexivity.
+Qed.
+
+(* the same for a lone seconds digit: "+01:02:3" consumes "+01:02", pre-fix value 3723, fixed 3720 *)
+Lemma parseoffset_lone_second_digit_refuted :
+  fmt_parse_offset_prefix [43; 48; 49; 58; 48; 50; 58; 51] 58 = Some (3723, [58; 51]) /\
+  fmt_parse_offset [43; 48; 49; 58; 48; 50; 58; 51] 58 = Some (3720, [58; 51]).
+Proof. vm_compute. split; reflexivity. Qed.
